@@ -264,19 +264,87 @@ def props_timed_out(E, res):
 
 def build(tier):
     O = [
-        Obligation('market.process_deal_update[live]', run_update(False), props_update(False),
+        Obligation('market.process_deal_update[live]', run_update(False), props_update(False), scenario=make_scenario('process_deal_update'),
                    descr='payment = price*(min(end,now) - max(start,last_updated)); nothing before start; collaterals released exactly at completion; tables and totals move by exactly these amounts',
                    bounds='one deal, one call; client = / != provider; all amounts and epochs unbounded', max_paths=20000),
-        Obligation('market.process_deal_update[marked-for-termination]', run_update(True), props_update(True),
+        Obligation('market.process_deal_update[marked-for-termination]', run_update(True), props_update(True), scenario=make_scenario('process_deal_update'),
                    descr='legacy slashed branch: paid to the slash epoch, remainder refunded, provider collateral burnt in full',
                    bounds='one deal, one call', max_paths=20000),
-        Obligation('market.process_deal_update x2 (schedule independence)', run_chain, props_chain,
+        Obligation('market.process_deal_update x2 (schedule independence)', run_chain, props_chain, scenario=make_scenario('process_deal_update_x2'),
                    descr='settle at e1 then at e2 (caller records last_updated := e1) == one settlement at e2, on the real code',
                    bounds='two chained calls, any lu <= e1 <= e2', max_paths=40000),
-        Obligation('market.process_slashed_deal', run_slashed, props_slashed,
+        Obligation('market.process_slashed_deal', run_slashed, props_slashed, scenario=make_scenario('process_slashed_deal'),
                    descr='termination: provider paid to min(end, slash), client refunded the rest + collateral, provider collateral burnt in full',
                    bounds='one deal, one call', max_paths=20000),
-        Obligation('market.process_deal_init_timed_out', run_timed_out, props_timed_out,
+        Obligation('market.process_deal_init_timed_out', run_timed_out, props_timed_out, scenario=make_scenario('process_deal_init_timed_out'),
                    descr='missed activation: provider collateral burnt, client fully refunded', bounds='one deal, one call', max_paths=20000),
     ]
     return O
+
+
+# ---------------------------------------------------------------------------------------
+# native replay scenarios ("market_state" adapter: calls the State method directly on a MemoryBlockstore)
+
+def _tables_json(E, res, m):
+    env = res.ctx.env
+    deal, tb = env['deal'], env['tb']
+    out = {'escrow': [], 'locked': []}
+    names = ['client'] if tb['same'] else ['client', 'provider']
+    for nm in names:
+        a = deal[nm]
+        esc, lck = tb['bal'][nm]
+        out['escrow'].append({'addr': ev(m, a.key), 'amount': str(ev(m, esc)),
+                              'present': bool(ev(m, z3.Or(esc > 0, z3.Bool('zero_entry_escrow_' + nm))))})
+        out['locked'].append({'addr': ev(m, a.key), 'amount': str(ev(m, lck)),
+                              'present': bool(ev(m, z3.Or(lck > 0, z3.Bool('zero_entry_locked_' + nm))))})
+    out['totals'] = {'client_collateral': str(ev(m, tb['tcc'])), 'provider_collateral': str(ev(m, tb['tpc'])),
+                     'storage_fee': str(ev(m, tb['tsf']))}
+    return out
+
+
+def _deal_json(m, deal):
+    return {'client': ev(m, deal['client'].key), 'provider': ev(m, deal['provider'].key), 'start': ev(m, deal['start']),
+            'end': ev(m, deal['end']), 'price': str(ev(m, deal['price'])), 'provider_collateral': str(ev(m, deal['pc'])),
+            'client_collateral': str(ev(m, deal['cc']))}
+
+
+def _after_json(E, res, m):
+    env = res.ctx.env
+    deal, tb = env['deal'], env['tb']
+    ec, lc, ep, lp, em, lm = balances_after(E, env['st1'], deal, tb)
+    tcc1, tpc1, tsf1 = totals(E, env['st1'])
+    p = {'escrow': [{'id': ev(m, deal['client'].key), 'amount': str(ev(m, ec))}],
+         'locked': [{'id': ev(m, deal['client'].key), 'amount': str(ev(m, lc))}],
+         'totals': {'client_collateral': str(ev(m, tcc1)), 'provider_collateral': str(ev(m, tpc1)), 'storage_fee': str(ev(m, tsf1))}}
+    if not tb['same']:
+        p['escrow'].append({'id': ev(m, deal['provider'].key), 'amount': str(ev(m, ep))})
+        p['locked'].append({'id': ev(m, deal['provider'].key), 'amount': str(ev(m, lp))})
+    return p
+
+
+def make_scenario(method):
+    def scenario(E, res, m):
+        env = res.ctx.env
+        deal = env['deal']
+        sc = {'actor': 'market_state', 'method': method, 'deal': _deal_json(m, deal)}
+        sc.update(_tables_json(E, res, m))
+        if 'ds' in env:
+            ds = env['ds']
+            sc['deal_state'] = {'sector_number': 1, 'sector_start_epoch': ev(m, ds['ss']), 'last_updated_epoch': ev(m, ds['lu']),
+                                'slash_epoch': ev(m, ds['se'])}
+        if 'epoch' in env:
+            sc['epoch'] = ev(m, env['epoch'])
+        if 'e1' in env:
+            sc['epoch1'] = ev(m, env['e1'])
+        pred = {'result': result_pred(E, res, m)}
+        if res.kind == 'return' and is_ok(res.value):
+            pred.update(_after_json(E, res, m))
+            okv = res.value.fields[('Ok', 0)]
+            if isinstance(okv, StructV):
+                pred['ret'] = {'slashed': str(ev(m, big(E, okv.fields[0]))), 'payment': str(ev(m, big(E, okv.fields[1]))),
+                               'completed': bool(ev(m, okv.fields[2])), 'remove': bool(ev(m, okv.fields[3]))}
+            else:
+                pred['ret'] = {'slashed': str(ev(m, big(E, okv)))}
+        sc['predicted'] = pred
+        return sc
+    return scenario
